@@ -15,7 +15,7 @@ from .. import kernel as K
 ID = "C09"
 ENGINE = "fssim"
 LEVEL = "fault_enumeration"
-BUDGET = {"quick": 60, "thorough": 1200}
+BUDGET = {"quick": 45, "thorough": 1200}
 RUN_TIMEOUT = 150
 SELFTEST_PAIRS = {"quick": 10, "thorough": 30}
 PROBES = ["abs_name", "dotdot_name", "backslash_or_drive_name", "very_long_name", "name_of_existing_host_file", "tar_link_member", "tar_device_or_fifo",
